@@ -16,6 +16,11 @@ pub fn size_bound(input_len: usize) -> usize {
 }
 
 pub fn check_structure(input: &[u8], f: &[u8], fastest: bool, what: &str, ctx: &mut CaseCtx) -> Result<bool, Failure> {
+    check_structure_for(input, f, fastest, what, ctx, BLK as u64, BLK)
+}
+
+/// `matcher_window`: what the match finder advertises; `space`: the block length it works in
+pub fn check_structure_for(input: &[u8], f: &[u8], fastest: bool, what: &str, ctx: &mut CaseCtx, matcher_window: u64, space: usize) -> Result<bool, Failure> {
     let info = match frame::walk(f, &WalkOpts::default()) {
         Ok(i) => i,
         Err(e) => fail!("malformed_frame", "{what}: the strict walker rejects the frame: {e}; frame {}", hexhead(f)),
@@ -25,12 +30,13 @@ pub fn check_structure(input: &[u8], f: &[u8], fastest: bool, what: &str, ctx: &
     let h = &info.header;
     ensure!(!h.single_segment && h.window_descriptor.is_some() && h.dict_id.is_none() && h.dict_id_bytes == 0 && h.fcs.is_none(), "header_fields", "{what}: unexpected header layout {h:?}");
     ensure!(h.checksum_flag && info.checksum.is_some(), "checksum_missing", "{what}: hash build but no content checksum in the frame");
-    ensure!(h.window_size >= BLK as u64, "window_too_small", "{what}: declared window {} is below the matcher's window of 128 KiB", h.window_size);
+    ensure!(h.window_size >= matcher_window, "window_too_small", "{what}: declared window {} is below the matcher's window of {matcher_window}", h.window_size);
     ensure!(info.max_offset <= h.window_size && !info.offset_beyond_window, "offset_beyond_window", "{what}: a match offset of {} exceeds the declared window {}", info.max_offset, h.window_size);
     let mut chose = false;
     let mut lasts = 0;
     for (i, b) in info.blocks.iter().enumerate() {
-        ensure!(b.stored <= BLK && b.regen <= BLK, "block_too_large", "{what}: block #{i} stores {} / regenerates {} bytes", b.stored, b.regen);
+        let block_max = (BLK as u64).min(h.window_size) as usize;
+        ensure!(b.stored <= block_max && b.regen <= block_max, "block_too_large", "{what}: block #{i} stores {} / regenerates {} bytes, Block_Maximum_Size is {block_max}", b.stored, b.regen);
         if b.last {
             lasts += 1;
             ensure!(i + 1 == info.blocks.len(), "last_block_not_final", "{what}: block #{i} carries the last-block flag but is not the final block");
@@ -51,7 +57,7 @@ pub fn check_structure(input: &[u8], f: &[u8], fastest: bool, what: &str, ctx: &
         ctx.feat_if(b.btype == 1, "choice:rle");
     }
     ensure!(lasts == 1, "last_block_count", "{what}: {lasts} blocks carry the last-block flag");
-    let bound = size_bound(input.len());
+    let bound = if space == BLK { size_bound(input.len()) } else { input.len() + 6 + 3 * 1usize.max(input.len().div_ceil(space)) + 3 * (input.len() > 0 && input.len() % space == 0) as usize + 4 };
     ensure!(f.len() <= bound, "frame_larger_than_raw_framing", "{what}: frame has {} bytes for {} bytes of input (bound {bound})", f.len(), input.len());
     ctx.feat_if(f.len() + 8 >= bound, "size:within_8B_of_bound");
     Ok(chose)
@@ -80,6 +86,47 @@ pub fn check(case: &Case, ctx: &mut CaseCtx) -> CaseResult {
     Ok(())
 }
 
+/// The built-in match finder in other configurations than the one `FrameCompressor::new` uses
+/// (slice 128 KiB x 1): the same structural rules have to hold for whatever window it advertises.
+#[derive(Clone, Debug, serde::Serialize, serde::Deserialize)]
+pub struct DriverCase {
+    pub data: crate::gen::data::DataSpec,
+    pub slice: u32,
+    pub slices: u8,
+}
+
+pub fn check_driver(case: &DriverCase, ctx: &mut CaseCtx) -> CaseResult {
+    use ruzstd::encoding::{CompressionLevel, FrameCompressor, MatchGeneratorDriver, Matcher};
+    let input = case.data.render();
+    let slice = (case.slice as usize).clamp(16, BLK);
+    let slices = case.slices.clamp(1, 40) as usize;
+    let driver = MatchGeneratorDriver::verif_new(slice, slices);
+    let window = driver.window_size();
+    let mut comp: FrameCompressor<&[u8], Vec<u8>, MatchGeneratorDriver> = FrameCompressor::new_with_matcher(driver, CompressionLevel::Fastest);
+    comp.set_source(&input[..]);
+    comp.set_drain(Vec::new());
+    comp.compress();
+    let f = comp.take_drain().unwrap();
+    let what = format!("built-in match finder with {slices} slice(s) of {slice} bytes (window {window}), {} of {} bytes", case.data.kind_name(), input.len());
+    crate::props::c02::verify_frame(&input, &f, &what)?;
+    let chose = check_structure_for(&input, &f, true, &what, ctx, window, slice)?;
+    ctx.feat_if(!window.is_power_of_two(), "driver:window_not_a_power_of_two");
+    ctx.feat_if(window < 1024, "driver:window_below_1KiB");
+    ctx.feat_if(slices > 1, "driver:window_spans_several_blocks");
+    ctx.nontrivial = chose && slices > 1;
+    ctx.set_hash_bytes(&[&f]);
+    Ok(())
+}
+
+fn driver_strategy() -> impl Strategy<Value = DriverCase> {
+    (
+        crate::gen::data::data_strategy(150_000),
+        prop_oneof![2 => 16u32..=300, 3 => 300u32..=9000, 1 => Just(1024u32), 1 => Just(65_536u32), 1 => Just(BLOCK), 1 => 9000u32..=BLOCK],
+        prop_oneof![2 => Just(1u8), 4 => 2u8..=9, 1 => 10u8..=40],
+    )
+        .prop_map(|(data, slice, slices)| DriverCase { data, slice, slices })
+}
+
 fn case_strategy(tier: Tier) -> impl Strategy<Value = Case> {
     let max_len = if tier == Tier::Quick { 1u32 << 20 } else { 8u32 << 20 };
     // extra weight on incompressible / nearly incompressible inputs and exact multiples of the block size
@@ -95,16 +142,19 @@ fn case_strategy(tier: Tier) -> impl Strategy<Value = Case> {
 }
 
 pub fn run(eng: &Engine) {
-    eng.set_rule("compressor output (both levels, reused compressor, inputs weighted to incompressible / nearly incompressible data, the boundary-seeking family and exact multiples of 128 KiB) parsed by the independent strict frame walker: exactly one frame, header fields consistent, window >= every offset and >= 128 KiB, every block <= 128 KiB stored and regenerated, one last block and it is final, offsets within data produced, sections self-consistent, bit streams end exactly, checksum correct, nothing after; size <= input + 6 + 3*max(1,ceil(n/128K)) + 3*[n positive multiple of 128K] + 4; compressed blocks strictly smaller than their data; non-trivial = >= 1 block where the Fastest level had to choose between raw and compressed; distinct by frame hash; evaluations count frames");
+    eng.set_rule("compressor output (both levels, reused compressor, inputs weighted to incompressible / nearly incompressible data, the boundary-seeking family and exact multiples of 128 KiB) parsed by the independent strict frame walker: exactly one frame, header fields consistent, window >= every offset and >= 128 KiB, every block <= 128 KiB stored and regenerated, one last block and it is final, offsets within data produced, sections self-consistent, bit streams end exactly, checksum correct, nothing after; size <= input + 6 + 3*max(1,ceil(n/128K)) + 3*[n positive multiple of 128K] + 4; compressed blocks strictly smaller than their data; non-trivial = >= 1 block where the Fastest level had to choose between raw and compressed; distinct by frame hash; evaluations count frames. Second stage: the built-in match finder configured (hook `MatchGeneratorDriver::verif_new`) with slices of 16 B..128 KiB x 1..40 slices, i.e. windows that are small, span several blocks or are no power of two: same walker rules with the declared window >= the window the match finder advertises and Block_Maximum_Size = min(window, 128 KiB), plus the round trip through both decoders");
     let _ = data_strategy;
     let tier = eng.tier;
     let n = eng.tier.pick(20_000, 300_000);
     eng.run_stage("frames", n, || case_strategy(tier), check);
+    let nd = eng.tier.pick(15_000, 200_000);
+    eng.run_stage("other_matcher_windows", nd, driver_strategy, check_driver);
 }
 
 pub fn replay(eng: &Engine, stage: &str, case: &Value) -> CaseResult {
     match stage {
         "frames" => eng.replay_value(stage, case, check),
+        "other_matcher_windows" => eng.replay_value(stage, case, check_driver),
         _ => Err(Failure::new("machinery", format!("unknown stage {stage}"))),
     }
 }
